@@ -1,10 +1,178 @@
 import Vegeta.Go.Proto
-/-! Driver operations of property C01 (ops are named `c01.<name>`). -/
-namespace Vegeta.Driver.C01
-open Vegeta.Go Vegeta.Go.Proto
+import Vegeta.Model.Pacer
+/-! Driver operations of property C01 (ops are named `c01.<name>`).
 
-def handle (_op : String) (args : List String) : Option String :=
-  match _op with
+The sine and linear pacers are executed with native `Float` (IEEE binary64: + − × ÷ and the
+integer→float conversions are correctly rounded, as in Go); `sin`/`cos` come from libm and
+may differ from Go's pure-Go `math.Sin/Cos` in the last place, so `c01.sine.ill` reports
+whether a result is sensitive to a few-ulp perturbation of `sin`/`cos` (`ill=1`).  Go's
+float→integer conversions (amd64) are written out by hand: Lean's saturate. -/
+namespace Vegeta.Driver.C01
+open Vegeta.Go Vegeta.Go.Proto Vegeta.Model.Pacer
+
+def f2p63 : Float := Float.ofNat 9223372036854775808
+
+/-- Go/amd64 `int64(f)` (CVTTSD2SQ): NaN and out-of-range give `MinInt64`. -/
+def goToInt64 (x : Float) : Int :=
+  if x.isNaN then minInt64
+  else if x ≥ f2p63 || x < -f2p63 then minInt64
+  else x.toInt64.toInt
+
+/-- Go/amd64 (go1.23) `uint64(f)`: below 2^63 the signed conversion reinterpreted, otherwise
+`int64(f - 2^63) | 1<<63`. -/
+def goToUInt64 (x : Float) : Int :=
+  if x < f2p63 then wrapU64 (goToInt64 x)
+  else
+    let v := goToInt64 (x - f2p63)
+    if v < 0 then (two63 : Int) else v + (two63 : Int)
+
+def mathPi : Float := Float.ofBits 0x400921FB54442D18
+
+/-- A perturbation of `sin`/`cos`: relative size and how its sign depends on the argument
+(0: fixed sign, 1: parity of the argument's bit pattern, 2: parity of the next bit), so that two
+calls with neighbouring arguments can be pushed in opposite directions, as independent rounding
+errors would. -/
+structure Pert where
+  ds : Float
+  dc : Float
+  mode : Nat
+  dns : Int := 0      -- offset added to every float→int64 conversion (a guess moved by 1ns)
+
+def Pert.sign (q : Pert) (x : Float) : Float :=
+  match q.mode with
+  | 0 => 1.0
+  | 1 => if x.toBits.toNat % 2 == 0 then 1.0 else -1.0
+  | _ => if (x.toBits.toNat / 2) % 2 == 0 then 1.0 else -1.0
+
+/-- native instance; `q`: perturbation of sin / cos (zero for the plain model). -/
+def nativeOps (q : Pert) : FloatOps Float where
+  ofInt64 := Float.ofInt
+  ofUInt64 := Float.ofInt
+  add := (· + ·)
+  sub := (· - ·)
+  mul := (· * ·)
+  div := (· / ·)
+  lt := fun a b => a < b
+  le := fun a b => a ≤ b
+  abs := Float.abs
+  round := Float.round
+  sin := fun x => let s := Float.sin x; s + q.sign x * q.ds * (Float.abs s + 1.0e-3)
+  cos := fun x => let c := Float.cos x; c + q.sign x * q.dc * (Float.abs c + 1.0e-3)
+  sq := fun x => x * x
+  toInt64 := fun x => goToInt64 x + q.dns
+  toUInt64 := goToUInt64
+  zero := 0.0
+  one := 1.0
+  two := 2.0
+  pi := mathPi
+  twoPi := 2.0 * mathPi
+  e9 := 1.0e9
+  em3 := 1.0e-3
+
+def plain : FloatOps Float := nativeOps ⟨0.0, 0.0, 0, 0⟩
+
+def showPace : PaceOut → String
+  | .wait d => "ok wait " ++ toString d
+  | .stop => "ok stop"
+  | .panic => "panic"
+
+def showBits (x : Float) : String := if x.isNaN then "nan" else toString x.toBits.toNat
+def showF64 (x : F64) : String := if x.isNaN then "nan" else toString x.bits
+
+def floatTok : P Float := do
+  let n ← nat
+  pure (Float.ofBits n.toUInt64)
+
+def sineParams : P (SineP Float) := do
+  let period ← int; let mf ← int; let mp ← int; let af ← int; let ap ← int; let s ← floatTok
+  pure { period := period, meanFreq := mf, meanPer := mp, ampFreq := af, ampPer := ap, startAt := s }
+
+def linearParams : P (LinearP Float) := do
+  let f ← int; let p ← int; let s ← floatTok
+  pure { freq := f, per := p, slope := s }
+
+def showExit : SineExit → String
+  | .invalid => "invalid" | .behind => "behind" | .converged => "converged" | .unconverged => "unconverged"
+
+/-- trace digest: length, last time, last count, rolling hash, end reason. -/
+def showLoop (tr : List (Int × Nat)) (e : Nat) : String :=
+  let h := tr.foldl (fun (h : Nat) (s : Int × Nat) =>
+    (h * 1000003 + (s.1 % 2305843009213693951).toNat + s.2) % 2305843009213693951) 7
+  let (lt, ln) := match tr.getLast? with
+    | some (t, n) => (t, n)
+    | none => (0, 0)
+  "ok " ++ toString tr.length ++ " " ++ toString lt ++ " " ++ toString ln ++ " " ++ toString h ++ " end=" ++ toString e
+
+def eps : Float := 8.8817841970012523e-16   -- 2^-50
+
+/-- Is the sine result sensitive to a few-ulp change of sin/cos?  Compares the plain run with
+eight perturbed runs (and two runs with every guess moved by ±1ns): a different exit, or a wait differing by more than `max(1ns, 5e-10·|w|)`. -/
+def sineIll (p : SineP Float) (t : Int) (hits : Nat) : Bool :=
+  let r0 := sinePaceX plain p t hits
+  let differs (r : PaceOut × SineExit) : Bool :=
+    if r.2 != r0.2 then true else
+    match r.1, r0.1 with
+    | .wait a, .wait b =>
+      let d := (a - b).natAbs
+      let tol := max 1.0 (5.0e-10 * Float.ofInt b.natAbs)
+      Float.ofNat d > tol
+    | .stop, .stop => false
+    | _, _ => true
+  -- runs whose every guess is moved by 1ns: the answer may move by 1ns (+ relative slack), not more
+  let differs1 (r : PaceOut × SineExit) : Bool :=
+    if r.2 != r0.2 then true else
+    match r.1, r0.1 with
+    | .wait a, .wait b =>
+      let d := (a - b).natAbs
+      let tol := max 2.0 (5.0e-10 * Float.ofInt b.natAbs)
+      Float.ofNat d > tol
+    | .stop, .stop => false
+    | _, _ => true
+  [(eps, eps, 0), (-eps, -eps, 0), (eps, -eps, 0), (-eps, eps, 0),
+   (eps, eps, 1), (-eps, -eps, 1), (eps, eps, 2), (-eps, -eps, 2)].any (fun (a, b, m) =>
+    differs (sinePaceX (nativeOps ⟨a, b, m, 0⟩) p t hits))
+  || differs1 (sinePaceX (nativeOps ⟨0.0, 0.0, 0, 1⟩) p t hits)
+  || differs1 (sinePaceX (nativeOps ⟨0.0, 0.0, 0, -1⟩) p t hits)
+
+def handle (op : String) (args : List String) : Option String :=
+  match op with
+  | "c01.const.pace" => do
+    let ((f, p, e, h), _) ← (do let f ← int; let p ← int; let e ← int; let h ← nat; pure (f, p, e, h)).run args
+    pure (showPace (constPace f p e h))
+  | "c01.const.rate" => do
+    let ((f, p), _) ← (do let f ← int; let p ← int; pure (f, p)).run args
+    pure ("ok " ++ showF64 (constRate f p))
+  | "c01.const.loop" => do
+    let ((f, p, t, n, st), _) ← (do
+      let f ← int; let p ← int; let t ← int; let n ← nat; let st ← listOf nat; pure (f, p, t, n, st)).run args
+    pure (showLoop (closedLoop (constPace f p) st t n) (closedLoopEnd (constPace f p) st t n))
+  | "c01.sine.pace" => do
+    let ((p, t, h), _) ← (do let p ← sineParams; let t ← int; let h ← nat; pure (p, t, h)).run args
+    let r := sinePaceX plain p t h
+    pure (showPace r.1 ++ " exit=" ++ showExit r.2)
+  | "c01.sine.ill" => do
+    -- asked only for the points where implementation and model differ (it costs ten model runs)
+    let ((p, t, h), _) ← (do let p ← sineParams; let t ← int; let h ← nat; pure (p, t, h)).run args
+    pure ("ok ill=" ++ (if sineIll p t h then "1" else "0"))
+  | "c01.sine.rate" => do
+    let ((p, t), _) ← (do let p ← sineParams; let t ← int; pure (p, t)).run args
+    pure ("ok " ++ showBits (sineRate plain p t))
+  | "c01.sine.hits" => do
+    let ((p, t), _) ← (do let p ← sineParams; let t ← int; pure (p, t)).run args
+    pure ("ok " ++ showBits (sineHits plain p t))
+  | "c01.linear.pace" => do
+    let ((p, t, h), _) ← (do let p ← linearParams; let t ← int; let h ← nat; pure (p, t, h)).run args
+    pure (showPace (linearPace plain p t h))
+  | "c01.linear.rate" => do
+    let ((p, t), _) ← (do let p ← linearParams; let t ← int; pure (p, t)).run args
+    pure ("ok " ++ showBits (linearRate plain p t))
+  | "c01.linear.hits" => do
+    let ((p, t), _) ← (do let p ← linearParams; let t ← int; pure (p, t)).run args
+    pure ("ok " ++ showBits (linearHits plain p t))
+  | "c01.linear.loop" => do
+    let ((p, t, n, st), _) ← (do
+      let p ← linearParams; let t ← int; let n ← nat; let st ← listOf nat; pure (p, t, n, st)).run args
+    pure (showLoop (closedLoop (linearPace plain p) st t n) (closedLoopEnd (linearPace plain p) st t n))
   | _ => none
 
 end Vegeta.Driver.C01
